@@ -627,13 +627,71 @@ def check_c05(exe, tier, seed, verdict):
     nfiles = 400 if tier == "quick" else 8000
     files = [gram.random_file(rnd, rnd.randint(2, 12 if tier == "quick" else 30), rnd.choice(["none", "none", "python", "join"]), 0.0, single_line=True, comment_heavy=True) for _ in range(nfiles)]
     acc = validate_prefix_traces(exe, files, verdict, "C05")
+    ndel = comment_deletion_pairs(exe, rnd, 600 if tier == "quick" else 12000, verdict)
+    acc += ndel
     hard = sum(1 for f in files for a in f["abs"] if a["t"] == "comment" and gram.comment_is_hard(a, f["par"]))
     cov = {"states": r.distinct, "transitions": r.generated, "traces_validated_against_impl": n + acc,
            "evaluations": n + sum(len(f["lines"]) for f in files), "distinct_nontrivial": nn + hard,
-           "rule": "TLC: every single-line-value file of the base pool (MC_Comment.tla) x every insertion of 1-2 comment lines (text with further comment characters, delimiters, quotes, brackets; with and without indentation) at every position; expectation = Meaning of the file WITHOUT the inserted lines (%d pairs, every %d-th replayed). Random: %d files with comment lines over 0x20-0x7e validated line by line (PStep on a comment line may change the pending comment only). non-trivial = inserted line contains a further comment character, delimiter, quote or bracket, is indented, or directly follows an entry." % (total, sample, len(files)),
+           "rule": "TLC: every single-line-value file of the base pool (MC_Comment.tla) x every insertion of 1-2 comment lines (text with further comment characters, delimiters, quotes, brackets; with and without indentation) at every position; expectation = Meaning of the file WITHOUT the inserted lines (%d pairs, every %d-th replayed). Random: %d files with comment lines over 0x20-0x7e validated line by line (PStep on a comment line may change the pending comment only). Deletion relation without a grammar: %d files of header / entry lines whose values are outside the conventional forms (unclosed leading quote, doubled quotes, lone quote, comment characters inside quotes, trailing backslash ...) read as they are and with comment lines inserted - same return code, sections, keys, values. non-trivial = inserted line contains a further comment character, delimiter, quote or bracket, is indented, or directly follows an entry." % (total, sample, len(files), ndel),
            "samples": samples, "exhaustive": sample == 1, "random_hard_comment_lines": hard,
            "trusted_base": ["TLC 1.8.0", "gcc ASan/UBSan", "drv.c"]}
     return cov, BASE_ASSUME, "model_checking"
+
+
+def comment_deletion_pairs(exe, rnd, n, verdict):
+    """C05 as a relation that needs no grammar: a file of header and entry lines whose VALUES are outside the conventional forms
+    (a leading quote that is never closed, doubled quotes, quotes in the middle, a lone quote, comment characters inside quotes,
+    brackets, a trailing backslash ...) is read twice - as it is, and with comment lines (any comment character of the set,
+    indented or not, any printable text) inserted between its lines.  Sections, keys, values and the return code must be the same."""
+    vals = ['"welcome', '""x"', '"a" b', 'a"b', '"', '""', '"a # b"', "'x", "[v]", "v\\", "", '  "  sp  "  ', '"unbal  ', 'x "y', '"a;b', 'plain', '"two words"',
+            '"open # not a comment', 'v ; w']
+    cases, metas = [], []
+    for i in range(n):
+        D, C = rnd.choice([("=", "#"), ("=", "#;"), (":=", "#"), (" =", "#"), ("=", ";")])
+        base = []
+        for _ in range(rnd.randint(1, 6)):
+            x = rnd.random()
+            if x < 0.15:
+                base.append("[%s]" % rnd.choice(["S", "T", " U "]))
+            elif x < 0.22:
+                base.append("")
+            else:
+                sep = rnd.choice([D[-1], " %s " % D[-1], "%s " % D[-1]])
+                base.append("%sk%d%s%s" % (rnd.choice(["", "", " "]), rnd.randint(0, 3), sep, rnd.choice(vals)))
+        withc = []
+        nins = 0
+        for ln in base:
+            while rnd.random() < 0.35:
+                withc.append(rnd.choice(["", "", " ", "\t", "   "]) + rnd.choice(C) + "".join(rnd.choice(' abz=:#;"[]\\\'0-') for _ in range(rnd.randint(0, 12))))
+                nins += 1
+            withc.append(ln)
+        while rnd.random() < 0.5 or not nins:
+            withc.append(rnd.choice(["", " ", "\t"]) + rnd.choice(C) + "".join(rnd.choice(' abz=:#;"[]') for _ in range(rnd.randint(0, 12))))
+            nins += 1
+        R = core.ROOT + "/cd%d" % (i % 16)
+        sc = []
+        for h, lines in ((1, base), (2, withc)):
+            sc += ["file %s %s" % (hx("%s/f%d.conf" % (R, h)), hx("\n".join(lines) + "\n")),
+                   "readfile %d %s %s %s" % (h, hx("%s/f%d.conf" % (R, h)), hx(D), hx(C)), "dump %d" % h, "free %d" % h]
+        cases.append((i, sc))
+        metas.append((D, C, base, withc))
+    res = core.run_cases(exe, cases)
+    ok = 0
+    for i, (D, C, base, withc) in enumerate(metas):
+        out = res.get(i)
+        case = {"kind": "comment-deletion", "delim": D, "comment": C, "without": base, "with": withc}
+        if out is None or out["crash"]:
+            verdict.violation("C05:deletion:crash", dict(case, crash=(out or {}).get("crash")), "reading crashed on\n%s\n%s" % ("\n".join(withc), (out or {}).get("crash", "")[:600]))
+            continue
+        rd = [e for e in out["ev"] if e["op"] == "readfile"]
+        dm = [e for e in out["ev"] if e["op"] == "dump"]
+        obs = [(r["rc"], (d.get("st") or {}).get("groups"), [(s_["g"], [(k["k"], k["v"]) for k in s_["keys"]]) for s_ in (d.get("st") or {}).get("secs", [])]) for r, d in zip(rd, dm)]
+        if len(obs) != 2 or obs[0] != obs[1]:
+            verdict.violation("C05:deletion", dict(case, got=obs), "comment lines are not inert (delim %r comment %r):\n--- without comment lines: %s\n%s\n--- with: %s\n%s" % (
+                D, C, obs[0] if obs else None, "\n".join(base), obs[1] if len(obs) > 1 else None, "\n".join(withc)))
+        else:
+            ok += 1
+    return ok
 
 
 # ----- C15: options -----
